@@ -2,7 +2,7 @@
 From Coq Require Import List ZArith Bool.
 From Coq.Strings Require Import Byte.
 Import ListNotations.
-From SV Require Import Text G_sjson C14_Model C14_Lemmas C14_Text C14_TextLemmas C14_DomainLemmas.
+From SV Require Import Text G_flags G_sjson C14_Model C14_Lemmas C14_Text C14_TextLemmas C14_DomainLemmas C14_Ops C14_OpsLemmas.
 
 (* P0: BioBasket.write(fmt='sjson') followed by read_sjson returns the basket with, in every Attr/Meta mapping, exactly the
    keys rejected by the encoder filter removed (strip); everything else -- residues, type, nested metadata with its classes,
@@ -267,3 +267,58 @@ Example C14_witness_borders :
   same_strands [OLoc 1 2 S_plus 0 None; OLoc 5 6 S_minus 0 None] = false /\
   wf_seq_but_case [(K_id, OStr [])] N_nt = true /\ upper (bs "acgU-n"%bs) = bs "ACGU-N"%bs.
 Proof. exact w_unsorted_ok. Qed.
+
+(* ======== BASKETS WITH A HISTORY (round 7): public operations applied before the write ============================================ *)
+(* Strand and Defect values (over the regenerated flag tables) are closed under _reverse, which is an involution, and under the
+   MISS_LEFT / MISS_RIGHT marking of FeatureList.slice *)
+Theorem C14_flags_closed :
+  (forall d, (0 <= d < 256)%Z -> (0 <= defect_reverse d < 256)%Z /\ defect_reverse (defect_reverse d) = d) /\
+  (forall s, is_strand s = true -> is_strand (strand_reverse s) = true /\ strand_reverse (strand_reverse s) = s) /\
+  (forall d, (0 <= d < 256)%Z -> (0 <= Z.lor d (Z.of_N D_MISS_LEFT) < 256)%Z /\ (0 <= Z.lor d (Z.of_N D_MISS_RIGHT) < 256)%Z).
+Proof. exact (conj defect_reverse_closed (conj strand_reverse_closed defect_mark_closed)). Qed.
+Print Assumptions C14_flags_closed.
+
+(* every modelled public operation -- Feature.rc(seqlen), FeatureList.rc(seqlen), assignment to Feature.locs, item assignment on
+   sequence and basket metadata (with its dict -> Attr conversion) -- keeps a basket inside the domain, strands '.' and '?' included *)
+Theorem C14_preop_keeps_domain : forall o b b', wf_C14 b = true -> op_ok o = true -> apply_op o b = Ok b' -> wf_C14 b' = true.
+Proof. exact op_keeps_domain. Qed.
+Print Assumptions C14_preop_keeps_domain.
+
+(* so after ANY number of them in ANY order write -> read returns the basket as it is at the moment of writing (induction over the
+   history) *)
+Theorem C14_prehistory_roundtrip : forall ops b b', wf_C14 b = true -> forallb op_ok ops = true -> apply_ops ops b = Ok b' ->
+  read_sjson (write_sjson b') = Ok (strip b') /\ exists b'', write_read b' = Ok b'' /\ pub b'' = pub b'.
+Proof. exact prehistory_roundtrip. Qed.
+Print Assumptions C14_prehistory_roundtrip.
+
+Example C14_witness_history :
+  wf_C14 w_basket = true /\ forallb op_ok w_ops = true /\
+  (exists b', apply_ops w_ops w_basket = Ok b' /\ b' <> w_basket /\ wf_C14 b' = true /\ read_sjson (write_sjson b') = Ok (strip b')).
+Proof. exact w_history_ok. Qed.
+
+(* operations that only rearrange, drop or repeat sequences of the basket or features of a sequence (sort, filter, select, set
+   operations, slicing of the basket, concatenation, list reversal) keep the domain too *)
+Theorem C14_rearrangement_keeps_domain :
+  (forall data data' m, wf_C14 (OBasket data m) = true -> incl data' data -> wf_C14 (OBasket data' m) = true) /\
+  (forall d m t fl fl', wf (OSeq d m t) = true -> lookup K_fts m = Some (OFts fl) -> incl fl' fl ->
+     wf (OSeq d (set_key K_fts (OFts fl') m) t) = true).
+Proof. exact rearrangement_keeps_domain. Qed.
+Print Assumptions C14_rearrangement_keeps_domain.
+
+(* LocationTuple(...) on ANY argument (locations given as lists are coerced to Location first): if it returns, the result is a
+   non-empty one-strand tuple of Location objects in order, and a fixed point *)
+Theorem C14_locationtuple_ordered_any : forall l l', location_tuple l = Ok l' ->
+  l' <> [] /\ forallb is_loc l' = true /\ same_strands l' = true /\ sorted_by (loc_order l') l' = true /\ location_tuple l' = Ok l'.
+Proof. exact locationtuple_ordered_any. Qed.
+Print Assumptions C14_locationtuple_ordered_any.
+
+(* the sniffer accepts the written BYTES: the text-head assumption of C14_written_text_is_detected is now a theorem about the printer *)
+Theorem C14_written_bytes_detected : forall b, is_basket b = true -> is_sjson (write_bytes b) = true.
+Proof. exact written_bytes_detected. Qed.
+Print Assumptions C14_written_bytes_detected.
+
+(* white space (space, tab, newline, carriage return) before and after the document does not matter *)
+Theorem C14_loads_padded : forall j fuel pre post, wfj j = true -> jsize j <= fuel ->
+  forallb is_ws pre = true -> forallb is_ws post = true -> loads fuel (pre ++ print j ++ post) = Some j.
+Proof. exact loads_padded. Qed.
+Print Assumptions C14_loads_padded.
